@@ -9,7 +9,7 @@ from vf.runner import hyp_run, run_cases, guard, fail, exc_failure
 RULE = ("1-5 grains (uniform orientation, symmetric strain <= 5e-3, position within +-500 um) x geometry drawn from "
         "C01's switch lattice (tilts, 8 flips, wedge, chi, omegasign +-1, pixel-size signs) on a 2048^2 detector x cell "
         "in {cubic F, hexagonal, orthorhombic} x start grains perturbed by <= 0.2 deg / 1e-3 / +-100 um x omega used "
-        "as observed or floated x lattice-symmetry constraint triclinic or matching; peaks forward-simulated by the "
+        "as observed or floated x lattice-symmetry constraint triclinic or matching x (makemap) orientation choice -s triclinic or matching, independent of -l; peaks forward-simulated by the "
         "harness's own ray tracing (validated on every case against the forward geometry reference to 1e-9), written "
         "to .flt/.par/.map files and pushed through loadparameters / loadfiltered / readubis / generate_grains / "
         "refinepositions (x2) / refineubis / savegrains and through scripts/makemap.py run twice (the second pass starting from the first's output); oracle = the generating grains; non-trivial = >= 2 of "
@@ -44,9 +44,10 @@ def cases(draw):
     # starts at the origin and the true positions are generated within the +-100 um perturbation range
     starts_with_t = draw(st.sampled_from([True, True, False]))
     route = draw(st.sampled_from(["api", "api", "makemap"]))
+    uniq = draw(st.sampled_from(["triclinic", "triclinic", "matching"]))      # makemap -s : orientation choice only
     seed = draw(st.integers(0, 2 ** 31 - 1))
     return dict(index=index, mseed=mseed, ng=ng, lattice=lat, strain=strain, omfloat=omfloat, constraint=constraint,
-                starts_with_t=starts_with_t, route=route, seed=seed)
+                starts_with_t=starts_with_t, route=route, seed=seed, uniq=uniq)
 
 
 def geometry(case):
@@ -150,7 +151,7 @@ def check(case, rec=None):
     fails = []
     where = "%s ng=%d strain=%g omfloat=%s constraint=%s route=%s start_t=%s wedge=%.3f chi=%.3f omegasign=%g" % (
         case["lattice"], case["ng"], case["strain"], case["omfloat"], case["constraint"], case["route"],
-        case["starts_with_t"], p["wedge"], p["chi"], p["omegasign"])
+        case["starts_with_t"], p["wedge"], p["chi"], p["omegasign"]) + " uniq=%s" % case.get("uniq")
     try:
         flt, par, ubi = write_inputs(d, p, cell, sym, starts, rows, case["starts_with_t"])
         out = os.path.join(d, "out.map")
@@ -181,7 +182,8 @@ def check(case, rec=None):
                 ok, e = guard(spec.loader.exec_module, mm)
                 if ok:
                     opts = types.SimpleNamespace(parfile=par, fltfile=flt, ubifile=ubi, newubifile=out,
-                                                 symmetry="triclinic", latticesymmetry=latsym, tol=0.05,
+                                                 symmetry=(symname if case.get("uniq") == "matching" else "triclinic"),
+                                                 latticesymmetry=latsym, tol=0.05,
                                                  omega_float=case["omfloat"], omega_slop=0.25, sort_npks=False,
                                                  tthrange=None, newfltfile=None)
                     ok, e = guard(mm.makemap, opts)
@@ -211,9 +213,17 @@ def check(case, rec=None):
         # single pass (makemap) with peaks taken by a neighbouring grain at the perturbed start: looser bounds
         lim_u, lim_t = (2e-5, 5.0) if mislabelled == 0 else (1e-3, 50.0)
         worst_u = worst_t = 0.0
+        reoriented = case["route"] == "makemap" and case.get("uniq") == "matching"
+        Ms = []
         for k, (g, (UB, t)) in enumerate(zip(got, grains)):
             ubi_true = np.linalg.inv(UB)
-            eu = np.abs(g.ubi - ubi_true).max() / np.abs(ubi_true).max()
+            M = g.ubi @ UB                      # identity, or a lattice symmetry operation chosen by makeuniq
+            Mi = np.rint(M)
+            Ms.append(Mi)
+            if reoriented and abs(abs(np.linalg.det(Mi)) - 1) < 1e-9:
+                eu = np.abs(np.linalg.inv(Mi) @ g.ubi - ubi_true).max() / np.abs(ubi_true).max()
+            else:
+                eu = np.abs(g.ubi - ubi_true).max() / np.abs(ubi_true).max()
             et = np.abs(np.asarray(g.translation) - t).max() if g.translation is not None else np.inf
             worst_u, worst_t = max(worst_u, eu), max(worst_t, et)
             if eu > lim_u:
@@ -247,13 +257,18 @@ def check(case, rec=None):
                 else:
                     own = lab == rows[:, 3].astype(int)
                     hkl = np.array([cf.h, cf.k, cf.l]).T
-                    if np.abs(hkl - rows[:, 4:7])[own].max() > 0:
-                        j = int(np.argmax(np.abs(hkl - rows[:, 4:7]).max(axis=1) * own))
+                    hexp = rows[:, 4:7].copy()
+                    if reoriented:
+                        for k, Mi in enumerate(Ms):       # saved indices are those of the reoriented grain
+                            mk = rows[:, 3].astype(int) == k
+                            hexp[mk] = (Mi @ rows[mk, 4:7].T).T
+                    if np.abs(hkl - hexp)[own].max() > 0:
+                        j = int(np.argmax(np.abs(hkl - hexp).max(axis=1) * own))
                         fails.append(fail("hkl", "saved h,k,l %s for a peak simulated from %s; %s" %
-                                          (hkl[j].tolist(), rows[j, 4:7].tolist(), where), what="hkl"))
+                                          (hkl[j].tolist(), hexp[j].tolist(), where), what="hkl"))
                     for k, g in enumerate(got):
                         m = (lab == k) & own
-                        gcalc = np.linalg.inv(g.ubi) @ rows[m, 4:7].T
+                        gcalc = np.linalg.inv(g.ubi) @ hexp[m].T
                         gobs = np.array([cf.gx[m], cf.gy[m], cf.gz[m]])
                         if m.any() and np.abs(gobs - gcalc).max() > (5e-4 if mislabelled == 0 else 5e-3):
                             fails.append(fail("gvec", "grain %d: saved g-vectors differ from UB_refined.hkl by %.3g; %s" %
